@@ -450,3 +450,132 @@ func ProbeVersions(sys semver.System) []string {
 }
 
 func itoa(i int) string { return string(rune('0' + i)) }
+
+// Variants returns up to n distinct strings obtained from base by ONE or TWO small
+// spelling-level edits each (case of a letter, leading zero, separator change, a
+// neighbouring letter/digit, trailing .0, an added or dropped component). Families of
+// such near-equal versions are what comparison defects need: two members that the
+// comparator identifies (or not) through one code path and a third that tells them apart.
+func Variants(r *rand.Rand, base string, n int) []string {
+	seen := map[string]bool{base: true}
+	var out []string
+	edit := func(s string) string {
+		if s == "" {
+			return s
+		}
+		b := []byte(s)
+		letters, digits, seps := []int{}, []int{}, []int{}
+		for i, ch := range b {
+			switch {
+			case ch >= 'a' && ch <= 'z' || ch >= 'A' && ch <= 'Z':
+				letters = append(letters, i)
+			case ch >= '0' && ch <= '9':
+				digits = append(digits, i)
+			case ch == '.' || ch == '-' || ch == '_' || ch == '+':
+				seps = append(seps, i)
+			}
+		}
+		switch r.Intn(12) {
+		case 0: // toggle the case of one letter
+			if len(letters) > 0 {
+				i := letters[r.Intn(len(letters))]
+				b[i] ^= 0x20
+			}
+		case 1: // upper-case or lower-case one whole alphabetic run
+			if len(letters) > 0 {
+				i := letters[r.Intn(len(letters))]
+				up := r.Intn(2) == 0
+				for j := i; j < len(b) && (b[j]|0x20) >= 'a' && (b[j]|0x20) <= 'z'; j++ {
+					if up {
+						b[j] &^= 0x20
+					} else {
+						b[j] |= 0x20
+					}
+				}
+			}
+		case 2: // leading zero on a number
+			if len(digits) > 0 {
+				i := digits[r.Intn(len(digits))]
+				for i > 0 && b[i-1] >= '0' && b[i-1] <= '9' {
+					i--
+				}
+				return s[:i] + "0" + s[i:]
+			}
+		case 3: // change one separator
+			if len(seps) > 0 {
+				i := seps[r.Intn(len(seps))]
+				return s[:i] + Pick(r, ".", "-", "_", "", ".", "-") + s[i+1:]
+			}
+		case 4: // neighbouring letter
+			if len(letters) > 0 {
+				i := letters[r.Intn(len(letters))]
+				switch b[i] | 0x20 {
+				case 'z':
+					b[i]--
+				case 'a':
+					b[i]++
+				default:
+					b[i] += byte(2*r.Intn(2)) - 1
+				}
+			}
+		case 5: // neighbouring digit
+			if len(digits) > 0 {
+				i := digits[r.Intn(len(digits))]
+				if b[i] == '9' {
+					b[i] = '8'
+				} else if b[i] == '0' || r.Intn(2) == 0 {
+					b[i]++
+				} else {
+					b[i]--
+				}
+			}
+		case 6: // a zero component before the first non-numeric part, or at the end
+			if i := strings.IndexAny(s, "-+_"); i > 0 && r.Intn(2) == 0 {
+				return s[:i] + ".0" + s[i:]
+			}
+			return s + ".0"
+		case 7:
+			return strings.TrimSuffix(s, ".0")
+		case 8: // add a component
+			return s + Pick(r, ".1", "-1", ".a", "-a", "-rc1", ".rc.1", "+b", ".post1", ".dev0", "-SNAPSHOT", ".0.1", "a", "1", ".Z", "-z")
+		case 9: // drop the last component
+			if len(seps) > 0 {
+				return s[:seps[len(seps)-1]]
+			}
+		case 10: // duplicate a component in place
+			if len(seps) > 0 {
+				i := seps[r.Intn(len(seps))]
+				j := i + 1
+				for j < len(s) && !strings.ContainsRune(".-_+", rune(s[j])) {
+					j++
+				}
+				return s[:j] + s[i:j] + s[j:]
+			}
+		default: // swap two adjacent components
+			if len(seps) > 1 {
+				k := r.Intn(len(seps) - 1)
+				i, j := seps[k], seps[k+1]
+				e := j + 1
+				for e < len(s) && !strings.ContainsRune(".-_+", rune(s[e])) {
+					e++
+				}
+				return s[:i+1] + s[j+1:e] + s[j:j+1] + s[i+1:j] + s[e:]
+			}
+		}
+		return string(b)
+	}
+	for tries := 0; len(out) < n && tries < n*12; tries++ {
+		v := edit(base)
+		if r.Intn(3) == 0 {
+			v = edit(v)
+		}
+		if len(out) > 0 && r.Intn(4) == 0 { // chains: a variant of a variant
+			v = edit(out[r.Intn(len(out))])
+		}
+		if !seen[v] && v != "" {
+			seen[v] = true
+			out = append(out, v)
+		}
+	}
+	return out
+}
